@@ -1,1 +1,751 @@
-//! (to be filled in)
+//! W4 `repair`: one real requester (`Repair::repair_loop`) repairing one block from 2-6 peers over
+//! `SimNet`. Peers are real `RepairRequestHandler`s over real blockstores (with or without the block),
+//! silent nodes, or harness-operated liars. Oracles: C14 (only matching data stored, task survives,
+//! completes while an honest peer answers, responder answers verify) and C15 (Merkle proofs acted on
+//! only for true (leaf, index, root) triples; plus the pure verification function under mutation).
+
+use std::collections::BTreeSet;
+use std::sync::Arc;
+use std::time::Duration;
+
+use alpenglow::consensus::{Blockstore, BlockstoreEvent, BlockstoreImpl, PoolImpl, SharedBlockstore, SharedPool};
+use alpenglow::crypto::merkle::{DoubleMerkleProof, DoubleMerkleTree, PlainMerkleTree, SliceRoot};
+use alpenglow::crypto::{Hash, MerkleTree};
+use alpenglow::repair::{Repair, RepairRequest, RepairRequestHandler, RepairRequestType, RepairResponse};
+use alpenglow::shredder::{RegularShredder, Shred, ShredIndex, Shredder, TOTAL_SHREDS, ValidatedShred};
+use alpenglow::types::{Slice, Slot};
+use alpenglow::{BlockId, Transaction};
+use alpenglow::network::Network;
+use serde_json::json;
+use tokio::sync::{RwLock, mpsc};
+
+use crate::kernel;
+use crate::keys;
+use crate::net::{Iface, NetCfg, NetCore, SharedNet, SimNet, addr_of, port_of, pump};
+use crate::props::WorldOutcome;
+use crate::wire::{self, si};
+
+const G: &str = "gen";
+const L: &str = "liar";
+
+#[derive(Clone, Copy, Debug, PartialEq, Eq)]
+enum PeerRole {
+    Requester,
+    HonestWithBlock,
+    HonestWithoutBlock,
+    Liar,
+    Silent,
+}
+
+fn hash_from(bytes: [u8; 32]) -> Hash {
+    wincode::deserialize::<Hash>(&bytes).expect("hash from bytes")
+}
+
+fn proof_hashes(p: &DoubleMerkleProof) -> Vec<Hash> {
+    p.as_ref().to_vec()
+}
+
+/// Parsed repair request (fields are private in the crate; parsed from its own wire form).
+#[derive(Clone, Debug)]
+struct Req {
+    sender: u64,
+    variant: u32,
+    block: BlockId,
+    slice: Option<u64>,
+    shred: Option<u64>,
+}
+
+fn parse_req(r: &RepairRequest) -> Option<Req> {
+    let b = wincode::serialize(r).ok()?;
+    if b.len() < 52 {
+        return None;
+    }
+    let sender = wire::get_u64(&b, 0);
+    let variant = u32::from_le_bytes(b[8..12].try_into().ok()?);
+    let slot = wire::get_u64(&b, 12);
+    let h: [u8; 32] = b[20..52].try_into().ok()?;
+    let block: BlockId = (Slot::new(slot), hash_from(h).into());
+    let slice = if variant >= 1 && b.len() >= 60 { Some(wire::get_u64(&b, 52)) } else { None };
+    let shred = if variant >= 2 && b.len() >= 68 { Some(wire::get_u64(&b, 60)) } else { None };
+    Some(Req { sender, variant, block, slice, shred })
+}
+
+fn req_type(r: &Req) -> RepairRequestType {
+    match r.variant {
+        0 => RepairRequestType::LastSliceRoot(r.block.clone()),
+        1 => RepairRequestType::SliceRoot(r.block.clone(), si(r.slice.unwrap_or(0) as usize)),
+        _ => RepairRequestType::Shred(r.block.clone(), si(r.slice.unwrap_or(0) as usize), ShredIndex::new(r.shred.unwrap_or(0) as usize).unwrap_or(ShredIndex::new(0).unwrap())),
+    }
+}
+
+struct Truth {
+    id: BlockId,
+    blk: wire::BuiltBlock,
+    /// alternative signing of slice 0 with `is_last = true` (Byzantine leader only)
+    alt_first: Option<Vec<ValidatedShred>>,
+    /// another validly signed block of the same leader in the same slot
+    other: wire::BuiltBlock,
+}
+
+fn mutate_proof(p: &DoubleMerkleProof) -> DoubleMerkleProof {
+    let mut v = proof_hashes(p);
+    match kernel::choose(L, 4) {
+        0 if !v.is_empty() => {
+            let i = kernel::choose(L, v.len() as u64) as usize;
+            let mut b: [u8; 32] = v[i].as_ref().try_into().unwrap();
+            b[kernel::choose(L, 32) as usize] ^= 1 << kernel::choose(L, 8);
+            v[i] = hash_from(b);
+        }
+        1 if !v.is_empty() => {
+            v.pop();
+        }
+        2 => v.push(hash_from([7u8; 32])),
+        _ => {
+            let extra = kernel::choose(L, 34) as usize;
+            v.resize(extra, hash_from([0u8; 32]));
+        }
+    }
+    v.into()
+}
+
+/// The liar's answer(s) to one request; `0` on every choice means "answer correctly".
+fn liar_answer(req: &Req, t: &Truth) -> Vec<RepairResponse> {
+    let rt = req_type(req);
+    let n_slices = t.blk.shreds.len();
+    let root_of = |k: usize| t.blk.shreds[k][0].slice_root().clone();
+    let mut out = Vec::new();
+    let about_target = req.block == t.id;
+    match req.variant {
+        0 => {
+            let last = n_slices - 1;
+            let correct = RepairResponse::LastSliceRoot(rt.clone(), si(last), root_of(last), t.blk.tree.create_proof(last));
+            match kernel::choose(L, 9) {
+                0 => {
+                    if about_target {
+                        out.push(correct)
+                    } else {
+                        out.push(RepairResponse::Nack(rt))
+                    }
+                }
+                1 => out.push(RepairResponse::Nack(rt)),
+                2 => {
+                    // index aliased modulo the tree width: same root, same proof, larger claimed slice count
+                    let h = t.blk.tree.height().max(1);
+                    let alias = last + (1 + kernel::choose(L, 3) as usize) * (1usize << h);
+                    if alias < 1024 {
+                        kernel::fault("liar_aliased_index");
+                        out.push(RepairResponse::LastSliceRoot(rt, si(alias), root_of(last), t.blk.tree.create_proof(last)));
+                    }
+                }
+                3 => {
+                    // a non-last slice presented as the last one
+                    let k = kernel::choose(L, n_slices as u64) as usize;
+                    kernel::fault("liar_wrong_last");
+                    out.push(RepairResponse::LastSliceRoot(rt, si(k), root_of(k), t.blk.tree.create_proof(k)));
+                }
+                4 => {
+                    kernel::fault("liar_bad_proof");
+                    out.push(RepairResponse::LastSliceRoot(rt, si(last), root_of(last), mutate_proof(&t.blk.tree.create_proof(last))));
+                }
+                5 => {
+                    kernel::fault("liar_wrong_variant");
+                    out.push(RepairResponse::SliceRoot(rt, root_of(0), t.blk.tree.create_proof(0)));
+                }
+                6 => {
+                    // root/proof of another block of the same leader
+                    kernel::fault("liar_other_block");
+                    let ol = t.other.shreds.len() - 1;
+                    out.push(RepairResponse::LastSliceRoot(rt, si(ol), t.other.shreds[ol][0].slice_root().clone(), t.other.tree.create_proof(ol)));
+                }
+                7 => {
+                    kernel::fault("liar_duplicate_response");
+                    out.push(correct.clone());
+                    out.push(correct);
+                }
+                _ => {
+                    // unsolicited response for a request nobody made
+                    kernel::fault("liar_unsolicited");
+                    let fake = RepairRequestType::SliceRoot(t.id.clone(), si(kernel::choose(L, 8) as usize));
+                    out.push(RepairResponse::Nack(fake));
+                    out.push(correct);
+                }
+            }
+        }
+        1 => {
+            let k = (req.slice.unwrap_or(0) as usize).min(n_slices - 1);
+            let correct = RepairResponse::SliceRoot(rt.clone(), root_of(k), t.blk.tree.create_proof(k));
+            match kernel::choose(L, 7) {
+                0 => out.push(correct),
+                1 => out.push(RepairResponse::Nack(rt)),
+                2 => {
+                    kernel::fault("liar_wrong_root");
+                    let o = (k + 1) % n_slices;
+                    out.push(RepairResponse::SliceRoot(rt, root_of(o), t.blk.tree.create_proof(k)));
+                }
+                3 => {
+                    kernel::fault("liar_bad_proof");
+                    out.push(RepairResponse::SliceRoot(rt, root_of(k), mutate_proof(&t.blk.tree.create_proof(k))));
+                }
+                4 => {
+                    kernel::fault("liar_wrong_variant");
+                    out.push(RepairResponse::LastSliceRoot(rt, si(k), root_of(k), t.blk.tree.create_proof(k)));
+                }
+                5 => {
+                    kernel::fault("liar_other_block");
+                    out.push(RepairResponse::SliceRoot(rt, t.other.shreds[0][0].slice_root().clone(), t.other.tree.create_proof(0)));
+                }
+                _ => {
+                    kernel::fault("liar_duplicate_response");
+                    out.push(correct.clone());
+                    out.push(correct);
+                }
+            }
+        }
+        _ => {
+            let k = (req.slice.unwrap_or(0) as usize).min(n_slices - 1);
+            let i = (req.shred.unwrap_or(0) as usize).min(TOTAL_SHREDS - 1);
+            let genuine = t.blk.shreds[k][i].as_shred().clone();
+            match kernel::choose(L, 8) {
+                0 => out.push(RepairResponse::Shred(rt, genuine)),
+                1 => out.push(RepairResponse::Nack(rt)),
+                2 => {
+                    kernel::fault("liar_wrong_shred_index");
+                    out.push(RepairResponse::Shred(rt, t.blk.shreds[k][(i + 1) % TOTAL_SHREDS].as_shred().clone()));
+                }
+                3 => {
+                    kernel::fault("liar_shred_of_other_slice");
+                    out.push(RepairResponse::Shred(rt, t.blk.shreds[(k + 1) % n_slices][i].as_shred().clone()));
+                }
+                4 => {
+                    kernel::fault("liar_shred_of_other_block");
+                    out.push(RepairResponse::Shred(rt, t.other.shreds[0][i].as_shred().clone()));
+                }
+                5 => {
+                    // byte-level tampering of the genuine shred
+                    kernel::fault("liar_tampered_shred");
+                    let b = crate::net::corrupt(&wire::shred_bytes(&genuine));
+                    if let Some(s) = wire::decode_shred(&b) {
+                        out.push(RepairResponse::Shred(rt, s));
+                    }
+                }
+                6 => {
+                    // same slice content signed with the other last-slice flag (Byzantine leader)
+                    if let (Some(alt), 0) = (&t.alt_first, k) {
+                        kernel::fault("liar_alt_signing_last_flag");
+                        out.push(RepairResponse::Shred(rt, alt[i].as_shred().clone()));
+                    } else {
+                        out.push(RepairResponse::Shred(rt, genuine));
+                    }
+                }
+                _ => {
+                    kernel::fault("liar_wrong_variant");
+                    out.push(RepairResponse::SliceRoot(rt, root_of(k), t.blk.tree.create_proof(k)));
+                }
+            }
+        }
+    }
+    out
+}
+
+async fn liar_task(net: SimNet<RepairResponse, RepairRequest>, truth: Arc<Truth>, requester: usize) {
+    kernel::set_task_name("liar");
+    loop {
+        let Ok(req) = net.receive().await else { return };
+        let Some(r) = parse_req(&req) else { continue };
+        if r.sender as usize != requester {
+            continue;
+        }
+        kernel::event(&format!("liar got v{} slice={:?} shred={:?}", r.variant, r.slice, r.shred));
+        for resp in liar_answer(&r, &truth) {
+            // optional delay before answering
+            let d = kernel::choose(L, 4) * 100;
+            if d > 0 {
+                tokio::time::sleep(Duration::from_millis(d)).await;
+            }
+            let _ = net.send(&resp, addr_of(requester, Iface::RepairReq)).await;
+        }
+    }
+}
+
+pub fn run(prop: &str, max_slices: usize) -> WorldOutcome {
+    let n = 3 + kernel::choose(G, 5) as usize;
+    let requester = kernel::choose(G, n as u64) as usize;
+    let window = 1 + kernel::choose(G, 10);
+    let slot = window * 4 + kernel::choose(G, 4);
+    let leader = (window % n as u64) as usize;
+    let byz_leader = kernel::choose(G, 3) == 0;
+    let n_slices = 1 + kernel::choose(G, max_slices as u64) as usize;
+    let stakes: Vec<u64> = (0..n).map(|_| 1 + kernel::choose(G, 5)).collect();
+    let kp = keys::keypair(leader);
+    // the block to repair
+    let mut slices = Vec::new();
+    let parent: BlockId = (Slot::new(slot - 1 - kernel::choose(G, 2).min(slot - 1)), wire::synth_hash(0, 3));
+    for i in 0..n_slices {
+        let ntx = kernel::choose(G, 30) as usize;
+        let txs: Vec<Transaction> = (0..ntx).map(|j| Transaction(vec![(i + j) as u8; 1 + (j * 13) % 200])).collect();
+        slices.push(Slice { slot: Slot::new(slot), slice_index: si(i), is_last: i == n_slices - 1, parent: if i == 0 { Some(parent.clone()) } else { None }, data: wire::txs_payload(&txs) });
+    }
+    let blk = wire::build_block(slices.clone(), &kp.sk).expect("block");
+    let id: BlockId = (Slot::new(slot), blk.hash.clone());
+    let alt_first = if byz_leader && n_slices >= 2 {
+        let mut s0 = slices[0].clone();
+        s0.is_last = true;
+        Some(RegularShredder::default().shred(&s0, &kp.sk).expect("shred").to_vec())
+    } else {
+        None
+    };
+    let other = wire::simple_block(Slot::new(slot), parent.clone(), 1 + kernel::choose(G, 3) as usize, 77, &kp.sk);
+    let truth = Arc::new(Truth { id: id.clone(), blk, alt_first, other });
+
+    // peers
+    let mut roles = vec![PeerRole::Silent; n];
+    roles[requester] = PeerRole::Requester;
+    let mut any_honest = false;
+    for i in 0..n {
+        if i == requester {
+            continue;
+        }
+        roles[i] = match kernel::choose(G, 6) {
+            0 | 1 => PeerRole::HonestWithBlock,
+            2 => PeerRole::HonestWithoutBlock,
+            3 | 4 => PeerRole::Liar,
+            _ => PeerRole::Silent,
+        };
+        if roles[i] == PeerRole::HonestWithBlock {
+            any_honest = true;
+        }
+    }
+    if !any_honest && kernel::choose(G, 4) != 0 {
+        // most runs have at least one honest peer holding the block (the liveness half needs it)
+        let i = (requester + 1) % n;
+        roles[i] = PeerRole::HonestWithBlock;
+        any_honest = true;
+    }
+    let ts = kernel::choose(G, 8) * 500; // stabilisation: before it loss/dup/delay, after it timely
+    let mut cfg = NetCfg::benign(n);
+    cfg.base_ms = 1 + kernel::choose(G, 30);
+    cfg.jitter_ms = kernel::choose(G, 60);
+    if kernel::choose(G, 2) == 1 {
+        cfg.loss_ppm = [50_000, 200_000, 500_000][kernel::choose(G, 3) as usize];
+    }
+    if kernel::choose(G, 3) == 1 {
+        cfg.dup_ppm = 100_000;
+    }
+    if kernel::choose(G, 3) == 1 {
+        cfg.straggle_ppm = 100_000;
+        cfg.straggle_max_ms = 1500;
+    }
+    cfg.stabilise_at_ms = Some(ts);
+    cfg.post_delay_ms = 100;
+    let liveness_bound_ms = 20 * 500; // R = 20 * REPAIR_TIMEOUT
+    let duration = ts + liveness_bound_ms + 2_000;
+    let tokio_seed = kernel::choose(G, 1 << 30);
+    kernel::event_nt(&format!("repair cfg n={n} requester={requester} leader={leader} slot={slot} slices={n_slices} byz_leader={byz_leader} roles={roles:?} ts={ts}"));
+
+    let rt = tokio::runtime::Builder::new_current_thread()
+        .enable_time()
+        .start_paused(true)
+        .rng_seed(tokio::runtime::RngSeed::from_bytes(&tokio_seed.to_le_bytes()))
+        .build()
+        .expect("rt");
+    let roles2 = roles.clone();
+    let stakes2 = stakes.clone();
+    let truth2 = truth.clone();
+    let prop_s = prop.to_string();
+    let (completed_ms, responder_checked, beyond_last) = rt.block_on(async move {
+        kernel::set_t0();
+        let roles = roles2;
+        let stakes = stakes2;
+        let truth = truth2;
+        let net: SharedNet = NetCore::new(n, cfg);
+        tokio::spawn(pump(net.clone()));
+        // requester
+        let (bs_tx, mut bs_rx) = mpsc::channel::<BlockstoreEvent>(100_000);
+        let req_bs: SharedBlockstore = Arc::new(RwLock::new(BlockstoreImpl::new(bs_tx)));
+        let (pool_tx, mut pool_rx) = mpsc::channel(100_000);
+        let (rep_tx, rep_rx) = mpsc::channel::<BlockId>(1024);
+        let req_pool: SharedPool = Arc::new(RwLock::new(PoolImpl::new(keys::vepoch(requester, &stakes), pool_tx, rep_tx.clone())));
+        let rq_net = SimNet::<RepairRequest, RepairResponse>::new(&net, port_of(requester, Iface::RepairReq));
+        let mut repair = Repair::new(req_bs.clone(), req_pool.clone(), rq_net, keys::vepoch(requester, &stakes));
+        tokio::spawn(async move {
+            kernel::set_task_name("repair-loop");
+            repair.repair_loop(rep_rx).await;
+        });
+        tokio::spawn(async move { while pool_rx.recv().await.is_some() {} });
+        // the requester may already hold dissemination data for the slot (must stay untouched)
+        let dis_prefix = kernel::choose(G, 3) == 1;
+        if dis_prefix {
+            let mut bs = req_bs.write().await;
+            for s in truth.other.shreds[0].iter().take(5) {
+                let _ = bs.add_shred_from_dissemination(s.clone()).await;
+            }
+        }
+        // peers
+        let mut honest_with_block: Vec<usize> = Vec::new();
+        let local = tokio::task::LocalSet::new();
+        let mut keep: Vec<Box<dyn std::any::Any>> = Vec::new();
+        for i in 0..n {
+            match roles[i] {
+                PeerRole::Requester => {}
+                PeerRole::HonestWithBlock | PeerRole::HonestWithoutBlock => {
+                    let (tx, mut rx) = mpsc::channel::<BlockstoreEvent>(100_000);
+                    let mut bsi = BlockstoreImpl::new(tx);
+                    if roles[i] == PeerRole::HonestWithBlock {
+                        for slice_shreds in &truth.blk.shreds {
+                            for s in slice_shreds {
+                                let _ = bsi.add_shred_from_dissemination(s.clone()).await;
+                            }
+                        }
+                        honest_with_block.push(i);
+                    }
+                    tokio::spawn(async move { while rx.recv().await.is_some() {} });
+                    let bs: SharedBlockstore = Arc::new(RwLock::new(bsi));
+                    let rp = SimNet::<RepairResponse, RepairRequest>::new(&net, port_of(i, Iface::RepairResp));
+                    let handler = RepairRequestHandler::new(keys::vepoch(i, &stakes), bs, rp);
+                    tokio::spawn(async move {
+                        kernel::set_task_name("repair-responder");
+                        handler.run().await;
+                    });
+                }
+                PeerRole::Liar => {
+                    let rp = SimNet::<RepairResponse, RepairRequest>::new(&net, port_of(i, Iface::RepairResp));
+                    local.spawn_local(liar_task(rp, truth.clone(), requester));
+                }
+                PeerRole::Silent => {
+                    keep.push(Box::new(SimNet::<RepairResponse, RepairRequest>::new(&net, port_of(i, Iface::RepairResp))));
+                }
+            }
+        }
+        // a prober checks the honest responders' answers to every request shape (C14 responder half)
+        let prober = SimNet::<RepairRequest, RepairResponse>::new(&net, port_of(n, Iface::RepairReq));
+        let mut responder_checked = 0u64;
+        let mut completed_ms: Option<u64> = None;
+        let mut beyond_last = false;
+        let mut block_events = 0u32;
+        local
+            .run_until(async {
+                let _ = rep_tx.send(truth.id.clone()).await;
+                let mut t = 0u64;
+                let mut tap_cursor = 0usize;
+                while t < duration {
+                    tokio::time::sleep(Duration::from_millis(100)).await;
+                    t += 100;
+                    // requester's blockstore events
+                    while let Ok(ev) = bs_rx.try_recv() {
+                        if let BlockstoreEvent::Block { slot: s, block_info } = ev {
+                            block_events += 1;
+                            kernel::event(&format!("requester Block s{} {}", s.inner(), crate::oracle::hx(block_info.verif_hash())));
+                            if *block_info.verif_hash() != truth.id.1 {
+                                kernel::violation(
+                                    "C14",
+                                    "stored:hash-mismatch",
+                                    format!("repair of block {} announced a block with hash {}", crate::oracle::hx(&truth.id.1), crate::oracle::hx(block_info.verif_hash())),
+                                );
+                            } else if completed_ms.is_none() {
+                                completed_ms = Some(kernel::now_ms());
+                            }
+                        }
+                    }
+                    // requests the requester put on the wire: never for a slice beyond the true last one
+                    let recs: Vec<_> = {
+                        let c = net.lock().unwrap();
+                        let v = c.taps[tap_cursor..].to_vec();
+                        tap_cursor = c.taps.len();
+                        v
+                    };
+                    for rec in recs {
+                        if rec.from_node == requester && rec.from_iface == Iface::RepairReq {
+                            if let Ok(r) = alpenglow::network::deserialize::<RepairRequest>(&rec.bytes)
+                                && let Some(p) = parse_req(&r)
+                                && p.block == truth.id
+                                && p.slice.is_some_and(|s| s as usize >= truth.blk.shreds.len())
+                            {
+                                beyond_last = true;
+                                kernel::violation(
+                                    "C15",
+                                    "acted-on-false-position:slice-count-misreported",
+                                    format!("requester asked for slice {} of a block that has {} slices: a last-slice proof verified for a position it does not hold", p.slice.unwrap(), truth.blk.shreds.len()),
+                                );
+                            }
+                        }
+                    }
+                    if kernel::capped() || kernel::has_violation() {
+                        break;
+                    }
+                    if completed_ms.is_some() && t >= ts + 1000 {
+                        break;
+                    }
+                }
+                // responder half: every request shape against an honest responder holding the block
+                if let Some(&h) = honest_with_block.first()
+                    && !kernel::capped()
+                {
+                    let nsl = truth.blk.shreds.len() as u64;
+                    let probes: Vec<(u32, Option<u64>, Option<u64>, bool)> = vec![
+                        (0, None, None, true),
+                        (1, Some(kernel::choose(G, nsl)), None, true),
+                        (1, Some(nsl + kernel::choose(G, 3)), None, false),
+                        (2, Some(kernel::choose(G, nsl)), Some(kernel::choose(G, 64)), true),
+                        (2, Some(nsl), Some(0), false),
+                    ];
+                    for (variant, sl, sh, should_serve) in probes {
+                        if sl.is_some_and(|s| s >= 1024) {
+                            continue;
+                        }
+                        let unknown_block = kernel::choose(G, 5) == 0;
+                        let bid: BlockId = if unknown_block { (truth.id.0, wire::synth_hash(9, 9)) } else { truth.id.clone() };
+                        let bytes = wire::repair_request_bytes(requester as u64, variant, &bid, sl, sh);
+                        // sender must be a known validator: use the requester's index, responses go to it;
+                        // so probe with the prober registered under a fresh validator index is impossible -
+                        // instead read the response off the wire taps
+                        let bytes = {
+                            let mut b = bytes;
+                            b[0..8].copy_from_slice(&(requester as u64).to_le_bytes());
+                            b
+                        };
+                        let before = net.lock().unwrap().taps.len();
+                        net.lock().unwrap().inject(port_of(n, Iface::RepairReq), port_of(h, Iface::RepairResp), bytes, Some(1));
+                        tokio::time::sleep(Duration::from_millis(50)).await;
+                        // the answer to *this* probe: the response embeds the request type right after its variant tag
+                        let want_rt = wincode::serialize(&match variant {
+                            0 => RepairRequestType::LastSliceRoot(bid.clone()),
+                            1 => RepairRequestType::SliceRoot(bid.clone(), si(sl.unwrap_or(0) as usize)),
+                            _ => RepairRequestType::Shred(bid.clone(), si(sl.unwrap_or(0) as usize), ShredIndex::new(sh.unwrap_or(0) as usize).expect("idx")),
+                        })
+                        .expect("ser");
+                        let resp = {
+                            let c = net.lock().unwrap();
+                            c.taps[before..]
+                                .iter()
+                                .find(|r| r.from_node == h && r.from_iface == Iface::RepairResp && r.bytes.len() >= 4 + want_rt.len() && r.bytes[4..4 + want_rt.len()] == want_rt[..])
+                                .map(|r| r.bytes.clone())
+                        };
+                        responder_checked += 1;
+                        let Some(resp) = resp else {
+                            kernel::violation("C14", "responder:no-answer", format!("honest responder {h} did not answer request variant {variant} slice {sl:?} shred {sh:?}"));
+                            continue;
+                        };
+                        let Ok(resp) = alpenglow::network::deserialize::<RepairResponse>(&resp) else {
+                            kernel::violation("C14", "responder:undecodable", "response does not decode".to_string());
+                            continue;
+                        };
+                        let serve = should_serve && !unknown_block;
+                        check_response(&resp, serve, variant, sl, sh, &truth, leader);
+                    }
+                }
+                let _ = &prober;
+            })
+            .await;
+        // stored data: what get_block returns under the requested id hashes to that id
+        {
+            let bs = req_bs.read().await;
+            if let Some(_b) = bs.get_block(&truth.id) {
+                // content check through the last-slice index and slice roots served
+                for k in 0..truth.blk.shreds.len() {
+                    let want = truth.blk.shreds[k][0].slice_root().clone();
+                    if bs.get_slice_root(&truth.id, si(k)) != Some(want) {
+                        kernel::violation("C14", "stored:wrong-content", format!("block filed under the requested id has a different slice root at {k}"));
+                    }
+                }
+                if bs.get_last_slice_index(&truth.id) != Some(si(truth.blk.shreds.len() - 1)) {
+                    kernel::violation("C14", "stored:wrong-content", "block filed under the requested id has a different slice count".to_string());
+                }
+            }
+            if dis_prefix {
+                // dissemination data of the slot is untouched by repair
+                for (i, s) in truth.other.shreds[0].iter().take(5).enumerate() {
+                    let cached = bs.cached_commitment(Slot::new(slot), si(0));
+                    if cached != Some(s.commitment()) {
+                        kernel::violation("C14", "stored:dissemination-data-changed", format!("dissemination commitment of slot {slot} changed during repair (shred {i})"));
+                        break;
+                    }
+                }
+            }
+        }
+        let _ = (block_events, &prop_s);
+        (completed_ms, responder_checked, beyond_last)
+    });
+    drop(rt);
+    // liveness: completes within R after stabilisation while an honest peer holds the block
+    let capped = kernel::capped();
+    if any_honest && !capped && completed_ms.is_none() && !kernel::has_violation() {
+        kernel::violation(
+            "C14",
+            "liveness:repair-not-completed",
+            format!("repair of a {n_slices}-slice block did not complete within {liveness_bound_ms} ms after stabilisation ({ts} ms) although an honest peer holds the block; roles {roles:?}"),
+        );
+    }
+    if let Some(c) = completed_ms {
+        kernel::probe("repairs_completed");
+        if c > ts {
+            kernel::probe_n("repair_ms_after_stabilisation_sum", c - ts);
+        }
+    }
+    let liars = roles.iter().filter(|r| **r == PeerRole::Liar).count();
+    kernel::fingerprint(&format!("{roles:?}{n_slices}{byz_leader}{completed_ms:?}"));
+    let fsig = kernel::with(|c| c.faults.keys().map(|k| k.to_string()).collect::<Vec<_>>().join(","));
+    kernel::fingerprint(&fsig);
+    let sample = json!({"n": n, "requester": requester, "leader": leader, "slot": slot, "slices": n_slices, "byzantine_leader": byz_leader,
+        "roles": roles.iter().map(|r| format!("{r:?}")).collect::<Vec<_>>(), "stabilise_at_ms": ts, "completed_at_ms": completed_ms,
+        "responder_probes": responder_checked, "requested_beyond_last": beyond_last});
+    let _ = BTreeSet::<u8>::new();
+    WorldOutcome { nontrivial: liars > 0 || any_honest, sample, virt_ms: duration }
+}
+
+fn check_response(resp: &RepairResponse, serve: bool, variant: u32, sl: Option<u64>, sh: Option<u64>, t: &Truth, leader: usize) {
+    let s = format!("{resp:?}");
+    let is_nack = s.starts_with("Nack");
+    if !serve {
+        if !is_nack {
+            kernel::violation("C14", "responder:served-unservable", format!("request variant {variant} slice {sl:?} that cannot be served was answered with {}", &s[..s.len().min(60)]));
+        }
+        return;
+    }
+    if is_nack {
+        kernel::violation("C14", "responder:nack-for-held-block", format!("request variant {variant} slice {sl:?} shred {sh:?} about a held block was NACKed"));
+        return;
+    }
+    match resp {
+        RepairResponse::LastSliceRoot(_, idx, root, proof) => {
+            if variant != 0 || !DoubleMerkleTree::check_proof_last(root, idx_usize(idx), &t.id.1, proof) || idx_usize(idx) != t.blk.shreds.len() - 1 {
+                kernel::violation("C14", "responder:last-slice-root-does-not-verify", "LastSliceRoot answer does not verify against the block hash".to_string());
+            }
+        }
+        RepairResponse::SliceRoot(_, root, proof) => {
+            if variant != 1 || !DoubleMerkleTree::check_proof(root, sl.unwrap_or(0) as usize, &t.id.1, proof) {
+                kernel::violation("C14", "responder:slice-root-does-not-verify", "SliceRoot answer does not verify against the block hash".to_string());
+            }
+        }
+        RepairResponse::Shred(_, shred) => {
+            let pk = keys::keypair(leader).pk;
+            let ok = ValidatedShred::try_new(shred.clone(), None, &pk).is_ok();
+            let genuine = wire::shred_bytes(t.blk.shreds[sl.unwrap_or(0) as usize][sh.unwrap_or(0) as usize].as_shred());
+            if variant != 2 || !ok || wire::shred_bytes(shred) != genuine {
+                kernel::violation("C14", "responder:shred-does-not-verify", "Shred answer is not the leader's shred".to_string());
+            }
+        }
+        RepairResponse::Nack(_) => {}
+    }
+}
+
+fn idx_usize(i: &alpenglow::types::SliceIndex) -> usize {
+    let b = wincode::serialize(i).expect("ser");
+    wire::get_u64(&b, 0) as usize
+}
+
+// =============================================================================================
+// C15: the verification function under mutation, on trees of sampled sizes
+
+pub fn c15_pure(max_leaves: usize) -> WorldOutcome {
+    let n_leaves = match kernel::choose(G, 6) {
+        0 => 1,
+        1 => 2,
+        2 => 1 << kernel::choose(G, 11),
+        3 => (1usize << kernel::choose(G, 11)) + 1,
+        4 => ((1usize << (1 + kernel::choose(G, 10))) - 1).max(1),
+        _ => 1 + kernel::choose(G, max_leaves as u64) as usize,
+    }
+    .min(max_leaves.max(1));
+    let leaves: Vec<Vec<u8>> = (0..n_leaves).map(|i| format!("leaf-{i}-{}", kernel::choose(G, 3)).into_bytes()).collect();
+    let tree = PlainMerkleTree::new(leaves.iter());
+    let root = tree.get_root();
+    let height = tree.height();
+    let idx = kernel::choose(G, n_leaves as u64) as usize;
+    let proof: Vec<Hash> = tree.create_proof(idx);
+    kernel::event_nt(&format!("c15 leaves={n_leaves} idx={idx} height={height}"));
+    // every proof the tree creates verifies
+    if !PlainMerkleTree::check_proof(&leaves[idx], idx, &root, &proof) {
+        kernel::violation("C15", "genuine-proof-rejected", format!("proof for leaf {idx} of {n_leaves} does not verify"));
+    }
+    let is_last = idx == n_leaves - 1;
+    if PlainMerkleTree::check_proof_last(&leaves[idx], idx, &root, &proof) != is_last {
+        kernel::violation(
+            "C15",
+            if is_last { "genuine-last-proof-rejected" } else { "non-last-leaf-accepted-as-last" },
+            format!("check_proof_last for leaf {idx} of {n_leaves} returned {}", !is_last),
+        );
+    }
+    // mutations: each must fail
+    let n_mut = 4 + kernel::choose(G, 8);
+    let mut classes = BTreeSet::new();
+    for _ in 0..n_mut {
+        let mut leaf = leaves[idx].clone();
+        let mut index = idx;
+        let mut r = root.clone();
+        let mut p = proof.clone();
+        let class = match kernel::choose(G, 8) {
+            0 => {
+                leaf.push(1);
+                "leaf"
+            }
+            1 => {
+                // another existing leaf's data at this index
+                if n_leaves < 2 {
+                    continue;
+                }
+                leaf = leaves[(idx + 1) % n_leaves].clone();
+                "leaf-swap"
+            }
+            2 => {
+                index = (idx + 1 + kernel::choose(G, 7) as usize) % (1usize << height.max(1));
+                if index == idx {
+                    continue;
+                }
+                "index-in-width"
+            }
+            3 => {
+                // aliased modulo the tree width / beyond the width
+                index = idx + (1 + kernel::choose(G, 5) as usize) * (1usize << height);
+                "index-beyond-width"
+            }
+            4 => {
+                index = idx + (1usize << (20 + kernel::choose(G, 12)));
+                "index-huge"
+            }
+            5 => {
+                let mut b: [u8; 32] = r.as_ref().try_into().unwrap();
+                b[kernel::choose(G, 32) as usize] ^= 1 << kernel::choose(G, 8);
+                r = hash_from(b);
+                "root"
+            }
+            6 => {
+                if p.is_empty() {
+                    continue;
+                }
+                let i = kernel::choose(G, p.len() as u64) as usize;
+                let mut b: [u8; 32] = p[i].as_ref().try_into().unwrap();
+                b[kernel::choose(G, 32) as usize] ^= 1 << kernel::choose(G, 8);
+                p[i] = hash_from(b);
+                "proof-element"
+            }
+            _ => {
+                let len = kernel::choose(G, 34) as usize;
+                if len == p.len() {
+                    continue;
+                }
+                p.resize(len, hash_from([0u8; 32]));
+                "proof-length"
+            }
+        };
+        classes.insert(class);
+        let res = std::panic::catch_unwind(|| (PlainMerkleTree::check_proof(&leaf, index, &r, &p), PlainMerkleTree::check_proof_last(&leaf, index, &r, &p)));
+        match res {
+            Err(_) => {
+                let ps = kernel::take_panics();
+                kernel::violation("C15", format!("panic:{class}"), format!("verification panicked on a {class} mutation: {:?}", ps.last().map(|p| &p.message)));
+            }
+            Ok((a, b)) => {
+                if a {
+                    kernel::violation("C15", format!("mutant-verifies:{class}"), format!("check_proof accepted a {class} mutation (leaves {n_leaves}, leaf {idx}, claimed index {index}, proof length {})", p.len()));
+                }
+                if b {
+                    kernel::violation("C15", format!("mutant-verifies-as-last:{class}"), format!("check_proof_last accepted a {class} mutation (leaves {n_leaves}, leaf {idx}, claimed index {index}, proof length {})", p.len()));
+                }
+            }
+        }
+    }
+    kernel::fingerprint(&format!("{n_leaves}:{idx}:{classes:?}"));
+    let _: Option<MerkleTree<Vec<u8>, Hash, Vec<Hash>>> = None;
+    let _: Option<(SliceRoot, Shred)> = None;
+    WorldOutcome { nontrivial: !classes.is_empty(), sample: json!({"leaves": n_leaves, "leaf_index": idx, "height": height, "mutation_classes": classes}), virt_ms: 0 }
+}
